@@ -19,5 +19,10 @@ for f in d["findings"]:
             if k in f and c in f[k]:
                 f[k] = f[k].replace(c, new)
         f["commit"] = new
+for f in d["findings"]:
+    if f["kind"] == "fixed":
+        f["line"] = "fixed: property=%s %s %s" % (f["property"], f.get("commit", "?"), " ".join(f.get("what", "").split())[:400])
+    elif f["kind"] == "known":
+        f["line"] = "KNOWN-FINDING: property=%s %s: %s" % (f["property"], f["id"], " ".join(f.get("what", "").split())[:400])
 json.dump(d, open(p, "w"), indent=1)
 print("remapped", len(m), "cherry-picked commits")
